@@ -18,12 +18,29 @@ from ..irutil import canon_param
 from .c07 import C07
 
 
+# prose that announces a default more than once, with different announcing phrases (which one is read must not vary)
+TWO_PHRASES = [
+    "number of passes. Default: 10. When resuming, defaults to 1.",
+    "the rate, defaults to 4. Default value is 3",
+    "how many. Default value is 7; on a retry it defaults to 2.",
+    "the mode. Defaults to\n5. Default: 6",
+]
+
+
+def _announce_twice(r, f):
+    if f["doc"] and r.random() < 0.35:
+        e = r.choice(f["doc"])
+        if e["name"] != "kwargs":
+            e["prose"] = r.choice(TWO_PHRASES)
+    return f
+
+
 def make_jobs(r, n):
     jobs = []
     for i in range(n):
         k = r.random()
         if k < 0.5:
-            f = defgen.gen_def(random.Random(r.randrange(1 << 30)))
+            f = _announce_twice(r, defgen.gen_def(random.Random(r.randrange(1 << 30))))
             if r.random() < 0.2 and f["doc"]:
                 # PyTorch-style option list in a google docstring (read as a Literal: its member order must not vary)
                 f["style"], f["brace_opts"] = "google", True
@@ -40,7 +57,7 @@ def make_jobs(r, n):
                 del irj["returns"]["default"]
             jobs.append({"id": "j%d" % i, "kind": "emit", "ir": irutil.ir_to_json(irj), "to": r.choice(["rest", "numpydoc", "class", "function", "argparse"])})
         else:
-            f = defgen.gen_def(random.Random(r.randrange(1 << 30)))
+            f = _announce_twice(r, defgen.gen_def(random.Random(r.randrange(1 << 30))))
             jobs.append({"id": "j%d" % i, "kind": "chain", "facts": f, "to": r.choice(["class", "argparse", "rest"])})
     return jobs
 
